@@ -32,6 +32,7 @@ func init() {
 		Assumptions: []string{"crash points are byte- and syscall-granular as seen from the process; reordering below the page cache (power loss without fsync) is not observable in this sandbox", "if ptrace is unavailable the strace cases are counted as not delivered; the RLIMIT cases still decide"},
 		MinObs:      map[string]int64{"children_run": 700, "cuts_error_mode": 200, "cuts_crash_mode": 200, "crashes_confirmed_by_signal": 150},
 		Run:         runC17,
+		EvalObs:     []string{"children_run"},
 	})
 }
 
